@@ -11,7 +11,11 @@ Theorem c02_source_shape :
   auth_nativepasswordauthplugin_password_matches_ok = true /\ auth_nativepasswordauthplugin_verify_scramble_ok = true /\
   auth_nativepasswordauthplugin_empty_password_quickpath_ok = true /\ auth_abstractclearpasswordauthplugin_auth_ok = true /\
   auth_nologinauthplugin_auth_ok = true /\ utils_xor_ok = true /\ utils_nonce_ok = true /\
-  packets_make_handshake_v10_ok = true /\ auth_native_names_ok = true.
+  packets_make_handshake_v10_ok = true /\ auth_native_names_ok = true /\
+  (* which nonce a proof is checked against is decided in authenticate / connection_phase / handle_change_user *)
+  connection_connection_authenticate_ok = true /\ connection_connection_connection_phase_ok = true /\
+  connection_connection_handle_change_user_ok = true /\ packets_make_auth_switch_request_ok = true /\
+  packets_parse_handshake_response_41_ok = true /\ packets_parse_com_change_user_ok = true.
 Proof. repeat split; reflexivity. Qed.
 
 Section AnyHash.
